@@ -10,7 +10,7 @@ THEOREMS = ['Pistache.WriteQueue.Props.' + t for t in ('inv_run', 'no_loss_no_du
 SIZES = [0, 1, 2, 7, 100, 511, 512, 513, 4096, 5000, 65536, 70000]
 
 def gen(tier, rnd):
-    L = ['wr FL m40,m60 -', 'wr LFL m10,f700,m30 5,B,100', 'wr L m1000 300,B,200', 'wr F m100,f300,m50 10,B,B,50', 'wr L m10 -', 'wr L m0 -', 'wr L m5,m0,m5 1,B,1']
+    L = ['wr F d5,m40 -', 'wr FFL m10,d7,m30 -', 'wr FL m40,m60 -', 'wr LFL m10,f700,m30 5,B,100', 'wr L m1000 300,B,200', 'wr F m100,f300,m50 10,B,B,50', 'wr L m10 -', 'wr L m0 -', 'wr L m5,m0,m5 1,B,1']
     N = 250 if tier == 'quick' else 5000
     for _ in range(N):
         k = rnd.choice([1, 1, 2, 3, 4, 6])
@@ -18,6 +18,10 @@ def gen(tier, rnd):
         for _ in range(k):
             sz = rnd.choice(SIZES) if rnd.random() < .6 else rnd.randint(1, 3000)
             ws.append(('f' if rnd.random() < .25 and sz > 0 else 'm') + str(sz))
+        if rnd.random() < .2:
+            # a write for a peer that is already gone sits in the queue in front of / between the others: it is dropped, the rest is delivered
+            for _ in range(rnd.choice([1, 1, 2])): ws.insert(rnd.randrange(0, len(ws)), 'd' + str(rnd.choice([1, 10, 100])))
+            k = len(ws)
         sc = []
         for _ in range(rnd.choice([0, 1, 2, 4, 8, 12])):
             r = rnd.random()
@@ -39,7 +43,7 @@ def oracle(ln, out):
     """direct statement of C06 on what the peer received and how the promises were settled"""
     if any(x in out for x in BAD): return ('crash', 'implementation aborted/hung: ' + out[:120])
     w = ln.split()
-    sizes = [int(t[1:]) for t in w[2].split(',')]
+    sizes = [int(t[1:]) for t in w[2].split(',') if t[0] != 'd']
     m = re.fullmatch(r'recv=(\d+) expected=(\d+) match=(\S+) promises=(\S+) calls=(\S+)', out)
     if not m: return 'unexpected output ' + out[:100]
     recv, exp, match, proms = int(m.group(1)), int(m.group(2)), m.group(3), m.group(4).split(',')
@@ -56,7 +60,7 @@ def classify(ln, out):
     w = ln.split()
     return (w[1], tuple(t[0] + str(int(t[1:]).bit_length()) for t in w[2].split(',')), tuple('B' if x == 'B' else 'c' for x in w[3].split(',')) if w[3] != '-' else ())
 
-RULE = ('1..6 writes per connection (memory and file buffers, sizes 0..70000 incl. buffer-size boundaries) issued from the loop thread, from a foreign thread, or alternately from both (each foreign issue joined before the next write) through Transport::asyncWrite on a live endpoint, '
+RULE = ('1..6 writes per connection (memory and file buffers, sizes 0..70000 incl. buffer-size boundaries; optionally with writes addressed to a peer that is already gone queued in front of or between them) issued from the loop thread, from a foreign thread, or alternately from both (each foreign issue joined before the next write) through Transport::asyncWrite on a live endpoint, '
         'with the socket write calls (send/sendfile) scripted through the write hook: any sequence of would-block results and caps of 1..100000 bytes; the bytes read by the peer are compared with the concatenation '
         'of the buffers, each promise\'s settlement count and value are recorded; the sequence of write calls (offered, accepted) is compared with the model. non-trivial = distinct (thread, write kinds/size classes, outcome pattern)')
 ASSUME = ['the peer stays connected and reads', 'loopback socket buffers are larger than the sizes used, so the only short writes / would-block results are the scripted ones',
